@@ -20,10 +20,33 @@ for d in sorted(glob.glob(os.path.join(V, "seeded", "*"))):
     rows.append("| %s | %s | %s | %s | %s |" % (sid, files, one(m.get("summary", ""), 230).replace("|", "/"),
                                              one(m.get("needs_to_manifest", ""), 200).replace("|", "/"),
                                              one(c.get("result", ""), 330).replace("|", "/")))
+def cat(r):
+    r0 = r.lower()
+    if r0.startswith("caught after") or r0.startswith("missed at first") or "initially missed" in r0:
+        return "after"
+    if "no-failing-input-found" in r0 and not r0.startswith("caught after"):
+        return "corr"
+    return "first"
+cats = {"first": 0, "after": 0, "corr": 0}
+for d in sorted(glob.glob(os.path.join(V, "seeded", "*"))):
+    try:
+        cats[cat(json.load(open(os.path.join(d, "meta.json"))).get("confirmed_by_lead", {}).get("result", ""))] += 1
+    except Exception:
+        pass
+summary = ("Summary (generated): %d seeded changes kept; %d reported with a failing input by the check as it stood when the change "
+           "arrived; %d missed or reported only as a broken correspondence at first and reported with a failing input after the "
+           "check was strengthened (the strengthening is described in the last column); %d still reported only as a broken "
+           "obligation (`no-failing-input-found`).\n\n" % (sum(cats.values()), cats["first"], cats["after"], cats["corr"]))
 hdr = ("| id | file(s) | change | needs to manifest | result of the check |\n|----|---------|--------|-------------------|---------------------|\n")
 p = os.path.join(V, "DESIGN.md")
 s = open(p).read()
 sec = s.index("## 9. Seeded changes")
+a = s.index("| id | ", sec)
+if "Summary (generated):" in s[sec:a]:
+    a0 = s.index("Summary (generated):", sec)
+    s = s[:a0] + s[a:]
+    a = s.index("| id | ", sec)
+s = s[:a] + summary + s[a:]
 a = s.index("| id | ", sec)
 b = s.index("\n\n", a) if "\n\n" in s[a:] else len(s)
 s = s[:a] + hdr + "\n".join(rows) + s[b:]
